@@ -81,9 +81,9 @@ var plans = map[string]Plan{
 		Real: realBuild, Stub: stubBuild, Assume: buildAssume, QuickS: 45, ThoroughS: 1200},
 	"C12": {Jobs: []Job{{World: "wbuild", Params: "max_targets=6", Share: 1}}, Level: "exploration", Rule: buildRule + " C12: executed commands are a subset of the model's selection closure, the number of selected targets logged by grog lies in [must, must+may], a platform-incompatible dependency aborts before any command.",
 		Real: realBuild, Stub: stubBuild, Assume: buildAssume, QuickS: 45, ThoroughS: 1200},
-	"C13": {Jobs: []Job{{World: "wbuild", Params: "max_targets=6", Share: 1}}, Level: "exploration", Rule: buildRule + " C13: tainted / no-cache / cache-disabled targets must execute, a consumed taint must not force a second execution, dependants only if outputs changed.",
+	"C13": {Jobs: []Job{{World: "wbuild", Params: "max_targets=6", Share: 0.7}, {World: "wbuild", Params: "load=minimal,max_targets=6", Share: 0.3}}, Level: "exploration", Rule: buildRule + " C13: tainted / no-cache / cache-disabled targets must execute, a consumed taint must not force a second execution, dependants only if outputs changed.",
 		Real: realBuild, Stub: stubBuild, Assume: buildAssume, QuickS: 45, ThoroughS: 1200},
-	"C14": {Jobs: []Job{{World: "wbuild", Params: "max_targets=6", Share: 1}}, Level: "exploration", Rule: buildRule + " C14: targets that exit non-zero, time out on the fake clock, omit a declared output or fail an output check are never reported successful; a failing check forces execution although a cached result exists.",
+	"C14": {Jobs: []Job{{World: "wbuild", Params: "max_targets=6", Share: 0.6}, {World: "wbuild", Params: "load=minimal,max_targets=6", Share: 0.15}, {World: "wbuild", Params: "mode=faults,load=minimal,max_targets=5", Share: 0.25}}, Level: "exploration", Rule: buildRule + " C14: targets that exit non-zero, time out on the fake clock, omit a declared output or fail an output check are never reported successful; a failing check forces execution although a cached result exists.",
 		Real: realBuild, Stub: stubBuild, Assume: buildAssume, QuickS: 45, ThoroughS: 1200},
 	"C03": {
 		Jobs:  []Job{{World: "wdag", Params: "max_n=400", Share: 0.4}, {World: "wbuild", Params: "max_targets=6", Share: 0.3}, {World: "wbuild", Params: "load=minimal,max_targets=6", Share: 0.1}, {World: "wbuild", Params: "mode=faults,load=minimal,max_targets=5", Share: 0.2}},
